@@ -76,6 +76,7 @@ let run (fn : string) (bs : coq_N list) (arg : int) : string * string =
   | "avc.ParseSPSNALUnit" -> show1 sps_string (c16_parse_sps (arg land 1 = 1) bs)
   | "avc.ParsePPSNALUnit" -> show1 pps_string (c16_parse_pps (chroma_lookup !ctx_sps) bs)
   | "avc.ParseSliceHeader" -> show1 slice_string (c16_parse_slice (sps_lookup !ctx_sps) (pps_lookup !ctx_pps) bs)
+  | "avc.GetSliceTypeFromNALU" -> show1 hex_of_n (get_slice_type bs)
   | "avc.ParsePSAndSlice" ->
     let (a, b, rest) = split3 bs in
     let spss = !ctx_sps @ (match c16_parse_sps true a with Ok s -> [s] | _ -> []) in
